@@ -41,6 +41,7 @@ type State struct {
 	ghostEnv map[string]Val // loop/ghost variables by name
 	depth    int
 	ghostDone bool
+	loopEntry map[int]map[string]string // heap at the most recent entry of loop k (for entry(...))
 }
 
 func (st *State) clone() *State {
@@ -58,6 +59,7 @@ func (st *State) clone() *State {
 		ghostEnv:   st.ghostEnv,
 		depth:      st.depth,
 		ghostDone:  st.ghostDone,
+		loopEntry:  st.loopEntry,
 	}
 	for k, v := range st.env {
 		n.env[k] = v
